@@ -1593,6 +1593,23 @@ fn account_frame(core: &mut Core, entries: &mut [Entry], conn: usize, healthy: b
     }
 }
 
+
+/// Every limit the harness configures lies inside the documented range of that limit (dgram:
+/// read timeout 1 ms..=60 s, retries 0..=100, parallel 1..=1000; stream: response 1 ms..=10 min,
+/// idle 0..=1 h). A configuration that reports another value than the one set would make the
+/// transport answer or fail by a budget the caller did not configure: the time budgets of the
+/// property are stated relative to the CONFIGURED timeouts. Reported as a violation at once.
+fn config_kept(ctx: &Arc<Ctx>, transport: &str, field: &str, want: String, got: String) {
+    if want != got {
+        ctx.violation(
+            &format!("C15|{transport}|config|setter-does-not-keep-an-in-range-value|{field}"),
+            &format!("{transport}::Config: {field} set to {want} (inside the documented range) reads back as {got}"),
+            json!({"part": "config", "transport": transport, "field": field, "set": want, "read_back": got}),
+        );
+        ctx.finish_quiet()
+    }
+}
+
 async fn run_stream(g: &Global, cfg: &StreamCfg, ch: Arc<Mutex<Chooser>>) {
     let mut core = Core::new(g, "stream", cfg.json(), ch.clone(), &cfg.plan);
     core.edns = cfg.edns;
@@ -1605,8 +1622,22 @@ async fn run_stream(g: &Global, cfg: &StreamCfg, ch: Arc<Mutex<Chooser>>) {
     sc.set_idle_timeout(idle);
     sc.set_response_timeout(rt);
     if sc.idle_timeout() != idle || sc.response_timeout() != rt {
-        eprintln!("MACHINERY: stream config limits changed the configured timeouts");
-        std::process::exit(2);
+        // Every timeout the harness configures lies inside the documented range of its limit
+        // (it is a machinery error of the harness if not: checked against the documented ranges
+        // here, stream idle 1 ms..=1 h with 0 = unset allowed, response 1 ms..=10 min). A setter
+        // that does not keep such a value makes every time budget of the property meaningless
+        // (the transport answers or fails by a budget the caller did not configure).
+        let in_range = rt >= Duration::from_millis(1) && rt <= Duration::from_secs(600) && idle <= Duration::from_secs(3600);
+        if !in_range {
+            eprintln!("MACHINERY: the harness configured a stream timeout outside the documented range ({idle:?}, {rt:?})");
+            std::process::exit(2);
+        }
+        g.ctx.violation(
+            "C15|stream|config|setter-does-not-keep-an-in-range-timeout",
+            &format!("stream::Config: set_idle_timeout({idle:?}) / set_response_timeout({rt:?}) read back as {:?} / {:?}; both values are inside the documented ranges", sc.idle_timeout(), sc.response_timeout()),
+            json!({"part": "config", "transport": "stream", "idle_ms": cfg.idle_ms, "rt_ms": cfg.rt_ms}),
+        );
+        g.ctx.finish_quiet()
     }
     // Budget of a stream request: response_timeout from its submission, plus
     // 1 ms: tokio timers have 1 ms resolution and the transport's test is the
@@ -2301,6 +2332,11 @@ async fn run_dgram(g: &Global, cfg: &DgramCfg, ch: Arc<Mutex<Chooser>>) {
     dc.set_read_timeout(DG_READ_TIMEOUT);
     dc.set_max_retries(cfg.retries);
     dc.set_max_parallel(cfg.max_par);
+    config_kept(&g.ctx, "dgram", "read_timeout", format!("{:?}", DG_READ_TIMEOUT), format!("{:?}", dc.read_timeout()));
+    config_kept(&g.ctx, "dgram", "max_retries", cfg.retries.to_string(), dc.max_retries().to_string());
+    if (1..=1000).contains(&cfg.max_par) {
+        config_kept(&g.ctx, "dgram", "max_parallel", cfg.max_par.to_string(), dc.max_parallel().to_string());
+    }
     if cfg.udp_size_none {
         dc.set_udp_payload_size(None);
     }
@@ -2705,6 +2741,8 @@ async fn run_multi(g: &Global, cfg: &MultiCfg, ch: Arc<Mutex<Chooser>>) {
         let mut dc = dgram::Config::new();
         dc.set_read_timeout(udp_to);
         dc.set_max_retries(cfg.udp_retries);
+        config_kept(&g.ctx, "dgram_stream", "read_timeout", format!("{:?}", udp_to), format!("{:?}", dc.read_timeout()));
+        config_kept(&g.ctx, "dgram_stream", "max_retries", cfg.udp_retries.to_string(), dc.max_retries().to_string());
         let (c, t) = dgram_stream::Connection::<DgConnect, Rq>::with_config(dgc, tcp, dgram_stream::Config::from_parts(dc, msc));
         conn = Box::new(c);
         transport = t;
@@ -3786,6 +3824,8 @@ async fn run_real(g: &Global, cfg: &RealCfg, ch: Arc<Mutex<Chooser>>) {
             let mut dc = dgram::Config::new();
             dc.set_read_timeout(DG_READ_TIMEOUT);
             dc.set_max_retries(cfg.udp_retries);
+            config_kept(&g.ctx, "dgram", "read_timeout", format!("{:?}", DG_READ_TIMEOUT), format!("{:?}", dc.read_timeout()));
+            config_kept(&g.ctx, "dgram", "max_retries", cfg.udp_retries.to_string(), dc.max_retries().to_string());
             ups.push(Box::new(dgram::Connection::with_config(dgc, dc)));
         }
     }
